@@ -22,17 +22,25 @@ type history struct {
 	name  string
 	fill  int       // 0: none, 1: FillOnes, 2: FillPattern
 	calls []priorOp // previous calls on the same receiver
+	// copied: the receiver of the measured call is parent.ShallowCopy(), where parent is a receiver with the
+	// history above ("read-only data shared, buffers reallocated": the copy must behave like a new receiver)
+	copied bool
 }
 
 type priorOp struct{ row, kind int }
 
 // histories enumerates the receiver histories for a target. quick: new, two residue fills, after
 // each method of the table (its first operand kind). thorough: after each (method, kind), and — for
-// the plain call (fresh exact output, no aliasing) — after every ordered pair of methods (first kinds).
+// calls that deviate in at most one of (aliasing, output history) — after every ordered pair of methods (first kinds).
 func histories(t *ot.Target, tier string, plain bool) []history {
 	hs := []history{{name: "new"}, {name: "residue:ones", fill: 1}, {name: "residue:pattern", fill: 2}}
 	if t.Randomized {
 		return hs
+	}
+	if len(t.Rows) > 0 && hasShallowCopy(t) {
+		// (receivers owning a PRNG are excluded: the copy draws a new PRNG, its stream is not the reference's)
+		hs = append(hs, history{name: "shallowcopy:of-new", copied: true},
+			history{name: "shallowcopy:of-used", copied: true, fill: 2, calls: []priorOp{{0, 0}}})
 	}
 	for i, r := range t.Rows {
 		nk := 1
@@ -57,8 +65,24 @@ func histories(t *ot.Target, tier string, plain bool) []history {
 	return hs
 }
 
+// hasShallowCopy reports whether the receivers of t have a ShallowCopy() method returning one value.
+func hasShallowCopy(t *ot.Target) bool {
+	if t.Type == nil {
+		return false
+	}
+	m, ok := t.Type.MethodByName("ShallowCopy")
+	// (a ShallowCopy promoted from an embedded type returns that type, not the receiver's: not a copy of the receiver)
+	return ok && m.Type.NumIn() == 1 && m.Type.NumOut() == 1 && m.Type.Out(0) == t.Type
+}
+
+func shallowCopy(rcv interface{}) interface{} {
+	return reflect.ValueOf(rcv).MethodByName("ShallowCopy").Call(nil)[0].Interface()
+}
+
 func histClass(h history) string {
 	switch {
+	case h.copied:
+		return "shallow-copy"
 	case h.fill != 0:
 		return "residue"
 	case len(h.calls) == 1:
@@ -222,6 +246,9 @@ func (k *call) measure(pat ot.Pattern, sh ot.Shape, h history) *obs {
 		if _, n := ot.FillResidue(rcv, ot.FillMode(h.fill-1)); n > 0 {
 			k.c.Cover("residue-filled", t.Name)
 		}
+	}
+	if h.copied {
+		rcv = shallowCopy(rcv)
 	}
 	// inputs that must stay intact: every argument that is not the designated output and not
 	// documented as modified in place; plus (new receiver only) the keys the receiver was built from
@@ -411,8 +438,10 @@ func methodScenario(envName string, t *ot.Target, ri int, tier string) engine.Sc
 			shapes = append(shapes, row.Out.Shapes...)
 		}
 		sh := shapes[c.Choose(len(shapes), "outshape")]
+		// ordered pairs of previous calls (thorough) are combined with every aliasing pattern and with every
+		// output history, but not with both at once
 		hists := histsOther
-		if pat.Name == "fresh" && sh == ot.ShapeExact {
+		if pat.Name == "fresh" || sh == ot.ShapeExact {
 			hists = histsPlain
 		}
 		h := hists[c.Choose(len(hists), "history")]
